@@ -15,13 +15,25 @@ def run(ctx):
     steps = cc.record_steps(ctx.scratch)
     steps_path = ctx.scratch / "steps.json"
     steps_path.write_text(json.dumps(steps))
-    nsteps = {k: len(steps[k]) for k in ("new", "new_noraw", "resave")}
+    nsteps = {k: max(len(v) for v in steps[k].values())
+              for k in ("new", "new_noraw", "resave")}
     # design: micro-step protocol with a crash between any two steps
     res = vcommon.tlc("MC_Container.tla", "Container.cfg", ctx.scratch,
                       env={"STEPS": steps_path}, timeout=3000)
-    vcommon.need_ok(res, "Container design")
-    vcommon.need_actions(res, ["Begin", "WriteStep", "Finish", "Crash"],
-                         "Container design")
+    if res.violated:
+        # the step lists are the implementation's: a design invariant that
+        # fails with them is a violation of the save protocol of the code
+        ctx.report(f"C16_Design_{res.violated}|steps:"
+                   + ",".join(s["kind"] for s in steps["resave"]["f1"])[:120],
+                   f"with the write-step lists recorded from the real "
+                   f"save_hdf5, Container.tla violates {res.violated}: "
+                   + vcommon.err_excerpt(res.stdout, 1500),
+                   {"kind": "design", "invariant": res.violated})
+    elif res.error:
+        raise MachineryError("Container design: " + res.error)
+    else:
+        vcommon.need_actions(res, ["Begin", "WriteStep", "Finish", "Crash"],
+                             "Container design")
     ctx.add_tlc(res, "Container.tla (3 curves, 2 fits, 2 users, <=3 saves, "
                      "crash between any two write steps)")
     hash2fit = [((cc.idd(c), cc.reference(c, f)["hash"]), f)
@@ -45,7 +57,6 @@ def run(ctx):
         for cl in clauses:
             step = "none"
             if ev["crash"]:
-                lst = steps["new"]
                 step = f"{ev['crash']}"
             fp = f"{cl}|{sig(tr['hist'][:ei + 1])}"
             ctx.report(fp, f"{cl} fails after saves {tr['hist'][:ei + 1]} "
@@ -93,6 +104,14 @@ def sig(hist):
 
 
 def replay(ctx, obj):
+    if obj.get("kind") == "design":
+        steps = cc.record_steps(ctx.scratch)
+        sp = ctx.scratch / "steps.json"
+        sp.write_text(json.dumps(steps))
+        res = vcommon.tlc("MC_Container.tla", "Container.cfg", ctx.scratch,
+                          env={"STEPS": sp}, timeout=3000)
+        print(res.violated)
+        return not res.violated
     steps = cc.record_steps(ctx.scratch)
     steps_path = ctx.scratch / "steps.json"
     steps_path.write_text(json.dumps(steps))
